@@ -149,6 +149,79 @@ mutual
           exact .cons hfd (checkTyU_sound p cv sty tty hfind) hrest
 end
 
+theorem checkCtor_sound (p : Program) (ctor : Conv) (tp : Bool) (t : Ty) (h : checkCtor p ctor tp t = true) :
+    HasCtor p ctor tp t := by
+  unfold checkCtor at h
+  split at h
+  · rename_i i args retErr w
+    cases hd : p.conv.customs[i]? with
+    | none => simp [hd] at h
+    | some d =>
+      simp only [hd, Bool.and_eq_true] at h
+      refine ⟨i, args, retErr, w, d, rfl, hd, h.1, ?_⟩
+      have h2 := h.2
+      cases tp with
+      | true =>
+        simp only [if_true] at h2 ⊢
+        split at h2
+        · rename_i te hte
+          simp only [Bool.and_eq_true] at h2
+          refine ⟨te, hte, Ty.eq_of_beq' h2.1, ?_⟩
+          cases hp : isPtr p.conv.env d.target with
+          | none => rfl
+          | some e => rw [hp] at h2; simp at h2
+        · cases h2
+      | false =>
+        simp only [Bool.false_eq_true, if_false] at h2 ⊢
+        exact Ty.eq_of_beq' h2
+  · cases h
+
+theorem checkConvertU_sound (p : Program) (c : Conv) (s t : Ty) (h : checkConvertU p c s t = true) : ConvertOKU p c s t := by
+  unfold checkConvertU at h
+  split at h
+  · rename_i ctor tp rest
+    simp only [Bool.and_eq_true] at h
+    refine .withCtor (checkCtor_sound p ctor tp t h.1.1) ?_ (checkTyU_sound p rest s t h.2)
+    intro cl a r w hr
+    have := h.1.2
+    rw [hr] at this
+    cases this
+  · rename_i ctor tp sp tz inner
+    simp only [Bool.and_eq_true] at h
+    have hc := checkCtor_sound p ctor tp t h.1
+    have h2 := h.2
+    cases sp with
+    | true =>
+      simp only [if_true] at h2
+      split at h2
+      · rename_i se hs
+        cases tz with
+        | true =>
+          simp only [if_true] at h2
+          split at h2
+          · rename_i te ht
+            exact .updPtrPtr hc hs ht (checkTyU_sound p inner se te h2)
+          · cases h2
+        | false =>
+          simp only [Bool.false_eq_true, if_false] at h2
+          split at h2
+          · cases h2
+          · rename_i hnt
+            exact .updSrcPtr hc hs (fun e he => hnt e he) (checkTyU_sound p inner se t h2)
+      · cases h2
+    | false =>
+      simp only [Bool.false_eq_true, if_false] at h2
+      cases tz with
+      | true =>
+        simp only [if_true] at h2
+        split at h2
+        · cases h2
+        · rename_i _ _ te ht hns
+          exact .updTgtPtr hc (fun e he => hns e he) ht (checkTyU_sound p inner s te h2)
+        · cases h2
+      | false => simp at h2
+  · exact .plain (checkTyU_sound p c s t h)
+
 theorem checkProgU_sound (p : Program) (h : checkProgU p = true) : ProgOKU p := by
   intro m gm hm
   unfold checkProgU at h
@@ -166,7 +239,7 @@ theorem checkProgU_sound (p : Program) (h : checkProgU p = true) : ProgOKU p := 
     cases b with
     | convert c =>
       simp only [hb] at this
-      exact checkTyU_sound p c _ _ this
+      exact checkConvertU_sound p c _ _ this
     | delegate _ _ _ => simp [hb] at this
     | update sp c =>
       simp only [hb] at this
